@@ -123,13 +123,21 @@ Qed.
 (* ---------------------------------------------------------------------- *)
 (* flush *)
 
-Lemma flush_not_empty :
-  exists ops, let st := run_ops (ops ++ [Flush]) init in in_paste st = false /\ prefix st <> [].
-Proof. exists [Feed [27; 91; 77; 27]]. vm_compute. split; [reflexivity|discriminate]. Qed.
+Lemma flush_empties_any st : prefix (flush st) = [] /\ oof (flush st) = oof st.
+Proof. split; [apply flush_empties|apply flush_oof]. Qed.
 
-Lemma flush_fixed_empties st :
-  prefix (flush_fixed st) = [] /\ oof (flush_fixed st) = oof st.
-Proof. unfold flush_fixed. now apply process_fixed_flush_empties. Qed.
+(* after a flush nothing is buffered except an unterminated paste *)
+Lemma flush_empties_schedule ops :
+  let st := run_ops (ops ++ [Flush]) init in
+  prefix st = [] /\ pending st = (if in_paste st then start_mark ++ paste_buf st else []).
+Proof.
+  cbv zeta. rewrite run_ops_app. unfold run_ops at 1 3 4 5. cbn [fold_left apply_op].
+  split; [apply flush_empties|]. unfold pending. rewrite flush_empties. now rewrite app_nil_r.
+Qed.
+
+Lemma flush_pinned_not_empty :
+  exists st, st = feed [27; 91; 77; 27] init /\ in_paste (flush_pinned st) = false /\ prefix (flush_pinned st) <> [].
+Proof. eexists. split; [reflexivity|]. vm_compute. split; [reflexivity|discriminate]. Qed.
 
 Lemma table_has_tuples :
   exists k ks, In (k, ks) ansi_table /\ mem_Z key_BracketedPaste ks = false /\ (1 < length ks)%nat.
